@@ -304,6 +304,22 @@ func runC12Case(i int, c c12Case) c12Result {
 	}
 	res.Coq = fmt.Sprintf("mk_scase %v %s\n %s\n %s\n (%s)", c.NoFwd, drv.CoqNs(vr), drv.CoqList(hs), drv.CoqList(os), x.FinalCoq())
 	res.Key = strings.Join(hs, ";")
+	// after everything was recorded for the model: the server still takes configuration and traffic - a network
+	// instance is added at run time (it needs the instance table exclusively), then a Get over all instances
+	if res.Problem == "" {
+		done := make(chan error, 1)
+		go func() { done <- x.D.S.AddNetworkInstance("LATE-NI") }()
+		select {
+		case err := <-done:
+			if err != nil {
+				res.Problem = "after the malformed request a network instance could not be added: " + err.Error()
+			} else if _, gerr, hang := x.D.DoGet(drv.GetSpec{NI: "all", AFT: "ALL"}.GetReq(), -1); hang != "" || gerr != nil {
+				res.Problem = fmt.Sprintf("after the malformed request and a run-time AddNetworkInstance, Get: %s %v", hang, gerr)
+			}
+		case <-time.After(drv.Watchdog):
+			res.Problem = fmt.Sprintf("HANG: after the malformed request (%s) AddNetworkInstance did not return within %v: the instance table is still locked", c.Class, drv.Watchdog)
+		}
+	}
 	x.Finish()
 	return res
 }
